@@ -10,7 +10,8 @@ META = {
     "explanation": "CONFIG: on every returning path of MPSConfig.__init__ (a) the stored extra_krylov_tolerance is "
                    "1e-12/precision when precision·extra < 1e-12 and the requested value otherwise (constants "
                    "evaluated), and these two factors are exactly what every emu-mps Krylov call multiplies; "
-                   "(b) `autosave_dt > 10` has been asserted; (c) optimize_qubit_ordering has been and-ed with "
+                   "both floor factors being the effective options self.precision / self.extra_krylov_tolerance (not __init__'s keyword arguments, which backend_options={...} overrides); "
+                   "(b) `self.autosave_dt > 10` has been asserted on the effective option; (c) optimize_qubit_ordering has been and-ed with "
                    "check_permutable_observables(), whose predicate is base-tag ⊆ whitelist and whose whitelist "
                    "agrees with the un-permutation handlers; (d) create_impl returns the DMRG driver whenever "
                    "solver==DMRG is possible and that driver refuses noise before anything else.",
